@@ -63,15 +63,17 @@ def run(ctx):
     plan = [(3, 7), (4096, 9), (65536 + 1, 25), (1 << 19, 40), (1 << 20, 60)] if q else [(3, 1), (4096, 2), (65537, 4), (1 << 19, 6), (1 << 20, 8), (3 << 20, 30)]
     ctx.constants["SCALED"] = [{"unit": u, "every_nth_case": st_} for u, st_ in plan]
     tot = 0
-    for unit, stride in plan:
-        o2 = ctx.impl("harness/spans_driver.py", ["--mode", "scaled", "--unit", unit, "--stride", stride], input_obj=cases, timeout=3000)
+    # the plain cases with the byte values mapped so that one of the two patterns becomes 0xff: payloads that begin with the largest byte value
+    plan = [(1, 3 if q else 1, 190), (2, 5 if q else 1, 190), (2, 5 if q else 1, 189), (3, 7 if q else 2, 190)] + [(u, st_, 0) for (u, st_) in plan]
+    for unit, stride, xor in plan:
+        o2 = ctx.impl("harness/spans_driver.py", ["--mode", "scaled", "--unit", unit, "--stride", stride, "--xor", xor], input_obj=cases, timeout=3000)
         tot += o2["stats"]["ops"]
         for i in range(o2["stats"]["cases"]):
             ctx.count("scaled:%d:%d" % (unit, i))
         for m in o2["mismatches"]:
             ctx.report("case:%s" % m["kind"], "real spans class disagrees with Spans.tla when one abstract offset stands for %d bytes: %s" % (unit, m["kind"]),
                        replay={"kind": "gen-case-scaled", "unit": unit, "case": m.get("case"), "op_index": m.get("op_index"), "detail": m.get("detail")})
-    ctx.notes.append("replay at scale: units %s bytes per abstract offset, %d operations" % ([u for u, _ in plan], tot))
+    ctx.notes.append("replay at scale: units %s bytes per abstract offset (and byte values complemented for the first two), %d operations" % ([p_[0] for p_ in plan], tot))
     # ---- TRACE ----
     nt = 20 if q else 300
     traces = ctx.impl("harness/spans_driver.py", ["--mode", "trace", "--n", nt, "--events", 200, "--maxoff", 300])
